@@ -148,9 +148,8 @@ def fill_op(op, net):
                                                     include_res_elements=False, net=net))
     elif k != "drop_pipes":
         op["cs"] = tuple_set(net)
-    if k == "create_continuous_elements_index":
-        order = [e for e in list(t.pp_elements(include_res_elements=True, net=net)) if e in net]
-        op["order"] = order
+    if k == "create_continuous_elements_index" and "order" not in op:
+        op["order"] = []          # filled by apply_op: the tables in the order the running code visits them
     if k == "reindex_junctions":
         op["element"] = "junction"
     if k == "reindex_pipes":
@@ -175,7 +174,20 @@ def apply_op(op, net):
     elif k == "create_continuous_element_index":
         t.create_continuous_element_index(net, op["element"], start=op["start"])
     elif k == "create_continuous_elements_index":
-        t.create_continuous_elements_index(net, start=op["start"])
+        # record which tables the code reindexes, in its own (set) order: input of the model
+        seen = []
+        orig = t.create_continuous_element_index
+
+        def rec(net_, element, *a, **kw):
+            if element in net_:
+                seen.append(element)
+            return orig(net_, element, *a, **kw)
+        t.create_continuous_element_index = rec
+        try:
+            t.create_continuous_elements_index(net, start=op["start"])
+        finally:
+            t.create_continuous_element_index = orig
+            op["order"] = seen
     elif k == "fuse_junctions":
         t.fuse_junctions(net, op["j1"], list(op["j2"]))
     elif k == "select_subnet":
